@@ -50,20 +50,21 @@ Definition spec_facts (h : N) (ln : bytes) : bool :=
   && Bool.eqb (N.testbit (tm_hi h) 0) (N.testbit h 11).
 
 Lemma wf_high_parts_spec_facts :
-  forallb (fun h => spec_facts h [] && (negb (link_ok_hi h [0]) || spec_facts h [0])) wf_high_parts = true.
+  forallb (fun h => spec_facts h [] && (negb (link_ok_w_hi h [0]) || spec_facts h [0])) wf_high_parts = true.
 Proof. vm_compute. reflexivity. Qed.
 
+(* on the wide write domain: a link name on anything but a directory *)
 Lemma spec_facts_of_wf : forall m ln,
-  mode_okb m = true -> link_ok m ln = true -> spec_facts (m / 512) ln = true.
+  mode_okb m = true -> link_ok_w m ln = true -> spec_facts (m / 512) ln = true.
 Proof.
   intros m ln Hm Hl. unfold mode_okb in Hm.
   apply existsb_exists in Hm. destruct Hm as [x [Hin Hx]].
-  apply N.eqb_eq in Hx. rewrite Hx. rewrite link_ok_hi_eq, Hx in Hl.
+  apply N.eqb_eq in Hx. rewrite Hx. rewrite link_ok_w_hi_eq, Hx in Hl.
   pose proof wf_high_parts_spec_facts as F. rewrite forallb_forall in F. specialize (F x Hin).
   apply andb_true_iff in F. destruct F as [F1 F2].
   destruct ln as [| c r]; [exact F1 |].
   change (spec_facts x (c :: r)) with (spec_facts x [0]).
-  rewrite link_ok_hi_ln in Hl. rewrite Hl in F2. exact F2.
+  change (link_ok_w_hi x (c :: r)) with (link_ok_w_hi x [0]) in Hl. rewrite Hl in F2. exact F2.
 Qed.
 
 Lemma testbit_hi : forall m k, N.testbit m (9 + k) = N.testbit (m / 512) k.
@@ -136,18 +137,17 @@ Proof.
   apply blen_0. rewrite <- Heq. apply N2Z.inj. apply Z.le_antisymm; [exact Hn | apply N2Z.is_nonneg].
 Qed.
 
-Lemma model_meets_spec_entry : forall e,
-  wf_entry_b e = true -> mtime_in_range e = true ->
+Lemma model_meets_spec_entry_w : forall e,
+  wf_entry_wb e = true -> mtime_in_range e = true ->
   member_matches e (archived_member (member_of_entry e)) = true.
 Proof.
   intros e Hwf Hmt.
-  destruct (wf_entry_parts e Hwf) as [Hst [Hsz _]].
-  destruct (wf_stat_parts _ Hst) as [Hm [Hlk Hp]].
+  destruct (wf_entry_w_parts e Hwf) as [[Hm [Hlk Hp]] [Hsz _]].
   pose proof (spec_facts_of_wf _ _ Hm Hlk) as F. unfold spec_facts in F.
   repeat (apply andb_true_iff in F; let X := fresh "F" in destruct F as [F X]).
   rename F into Ftf, F0 into Fb9, F1 into Fb10, F2 into Fb11, F3 into Flt, F4 into Freg, F5 into Fdir.
   apply eqb_prop in Fb9, Fb10, Fb11, Freg, Fdir. apply N.ltb_lt in Flt.
-  pose proof (payload_size_entry e Hwf) as Hps.
+  pose proof (payload_size_entry_w e Hwf) as Hps.
   unfold member_matches, archived_member, member_of_entry in *. cbn [fst snd] in *.
   cbn [archived hdr_of_stat h_name h_typeflag h_mode h_uid h_gid h_size h_mtime h_linkname h_devmajor h_devminor h_xattrs].
   unfold hdr_of_stat at 1 in Hps. cbn [h_size] in Hps.
@@ -185,17 +185,32 @@ Proof.
   - reflexivity.
 Qed.
 
-Lemma members_match_model : forall l,
-  wf_listing_b l = true -> forallb mtime_in_range l = true ->
+Lemma model_meets_spec_entry : forall e,
+  wf_entry_b e = true -> mtime_in_range e = true ->
+  member_matches e (archived_member (member_of_entry e)) = true.
+Proof. intros e H. apply model_meets_spec_entry_w. apply wf_entry_narrow_wide. exact H. Qed.
+
+Lemma members_match_model_w : forall l,
+  wf_listing_wb l = true -> forallb mtime_in_range l = true ->
   members_match l (map archived_member (tar_of_listing l)) = true.
 Proof.
   induction l as [| e r IH]; intros Hwf Hmt; [reflexivity |].
-  cbn [wf_listing_b forallb] in Hwf, Hmt.
+  cbn [wf_listing_wb forallb] in Hwf, Hmt.
   apply andb_true_iff in Hwf. destruct Hwf as [He Hr].
   apply andb_true_iff in Hmt. destruct Hmt as [Hme Hmr].
   cbn [tar_of_listing map members_match].
-  rewrite (model_meets_spec_entry e He Hme). apply IH; assumption.
+  rewrite (model_meets_spec_entry_w e He Hme). apply IH; assumption.
 Qed.
+Lemma members_match_model : forall l,
+  wf_listing_b l = true -> forallb mtime_in_range l = true ->
+  members_match l (map archived_member (tar_of_listing l)) = true.
+Proof. intros l H. apply members_match_model_w. apply wf_listing_narrow_wide. exact H. Qed.
+
+(* the member-by-member specification on the wide write domain, for any listing *)
+Lemma model_meets_member_spec_wide_proof : forall l,
+  wf_listing_wb (reset_entries l) = true -> forallb mtime_in_range (reset_entries l) = true ->
+  members_match (reset_entries l) (map archived_member (tar_members_listing l)) = true.
+Proof. intros l H T. unfold tar_members_listing. apply members_match_model_w; assumption. Qed.
 
 (* every hard-link member names an earlier regular member *)
 Lemma carries_size_member : forall t, carries_size (fst t) = true ->
